@@ -21,7 +21,7 @@ def run(idx, rep, tier):
     affine.r_originfree(idx, rep, ["distance3d.containment_test", "distance3d.mesh"], floor=6)
     fr_rets = e2(idx)
     frame.r_frame(idx, rep, fr_rets, modules=MODS, floor=8)
-    degree.r_degree(idx, rep, modules=sorted(MODS), floor=8)
+    degree.r_degree(idx, rep, modules=sorted(set(MODS) | {m.name for m in idx.lib_modules() if m.name.startswith("distance3d.distance")}), floor=8)
     purity.r_pureargs(idx, rep, ["distance3d.containment_test", "distance3d.utils"], floor=5)
     onsegment.r_halfsize(idx, rep, ["distance3d.containment_test"] + [x.name for x in idx.lib_modules() if x.name.startswith("distance3d.distance")], floor=3)
     partition.r_isolated(idx, rep, ["distance3d.containment_test"], floor=0)      # no instance today (the predicates clamp with min/max); armed for rewritten clamps, positive example built in
